@@ -17,6 +17,13 @@ OPS = [
     (r"\+ 1\b", "+ 2"), (r"- 1\b", "- 0"), (r"\+ 1\b", "+ 0"), (r"\btrue\b", "false"), (r"\bfalse\b", "true"),
     (r"\b0\b", "1"), (r"\b1\b", "0"),
 ]
+SWAPS = [("TopLeft", "TopRight"), ("BottomLeft", "BottomRight"), ("Left", "Right"), ("HOuter", "HRule"), ("VBodyBorder", "VBodyInner"),
+         ("HTopDown", "BTopDown"), ("HBLeft", "HBRight"), ("LeftBodyRule", "RightBodyRule"), ("addTime", "renderTime"),
+         ("preCellRenderTime", "postCellRenderTime"), ("CB_AT_RENDER_PRECELL", "CB_AT_RENDER_POSTCELL"), ("CB_AT_ADD", "CB_AT_RENDER"),
+         ("rowItselfCallbacks", "rowCellCallbacks"), ("tableItselfCallbacks", "tableCellCallbacks"), ("tableCellCallbacks", "tableRowAdditionCallbacks"),
+         ("columnItselfCallbacks", "cellCallbacks"), ("width", "height"), ("Row", "Column"), ("rowNum", "columnNum"), ("CB_ON_CELL", "CB_ON_ROW"),
+         ("headers", "cells"), ("Center", "Right"), ("LineHeaderTop", "LineBodyTop"), ("LineBottom", "LineSeparator"), ("HeaderLineRendered", "BodyLineRendered"),
+         ("cellWidth", "height"), ("nColumns", "rowNum"), ("key", "val"), ("str", "raw")]
 SKIP_FILES = ("zz_verif_contracts.go", "_test.go", "pretty.go", "version.go", "doc.go")
 
 
@@ -60,6 +67,10 @@ def sites():
                 m = re.match(r"^(\s+)break\s*$", code)
                 if m:
                     out.append((rel, ln, 0, len(line), m.group(1) + "continue", 95))
+                for a, b in SWAPS:
+                    for x, y in ((a, b), (b, a)):
+                        for m in re.finditer(r"(?<![A-Za-z0-9_])" + re.escape(x) + r"(?![A-Za-z0-9_])", code):
+                            out.append((rel, ln, m.start(), m.end(), y, 94))
                 for oi, (pat, rep) in enumerate(OPS):
                     for m in re.finditer(pat, code):
                         out.append((rel, ln, m.start(), m.end(), rep, oi))
@@ -105,6 +116,9 @@ def main():
         else:
             a = a[1:]
     ss = sites()
+    if os.environ.get("CAMPAIGN_OPS"):
+        keep = set(int(x) for x in os.environ["CAMPAIGN_OPS"].split(","))
+        ss = [s for s in ss if s[5] in keep]
     if only:
         ss = [s for s in ss if s[0] in only]
     random.Random(seed).shuffle(ss)
